@@ -104,24 +104,22 @@ theorem tl_colon_out (p : Bytes) (hn : Bool) (d : Int) (fuel pp : Nat) (pl : Int
   have ht' : ¬ (List.head? t).getD 0 = 91 := by simpa [List.headD_eq_head?_getD] using ht
   simp [hsp, hr, tlX, hr1, ht']
 
-theorem keyText_clean {k : Kw} (hk : KwOK k) :
+theorem keyText_clean {k : Kw} (hk : KwW k) :
     ∀ b ∈ keyText k, b ≠ 0 ∧ [63, 58, 91, 93].contains b = false := by
   intro b hb
   simp only [keyText, List.mem_append] at hb
   rcases hb with hb | hb
-  · have hc : isKwChar b = true := by
-      have := hk.chars; simp only [List.all_eq_true] at this; exact this b hb
-    have := isKwChar_ne b hc
-    simp [this]
+  · have := hk.long_all b hb
+    exact ⟨this.1, this.2.2.2.2.2⟩
   · cases hnum : k.numeric <;> simp [hnum] at hb
     subst hb; simp
 
-theorem keyText_pos {k : Kw} (hk : KwOK k) : 0 < (keyText k).length := by
+theorem keyText_pos {k : Kw} (hk : KwW k) : 0 < (keyText k).length := by
   have : 0 < k.long.length := List.length_pos_iff.mpr hk.ne
   simp [keyText]; omega
 
 /-- the test "the keyword text ends with '#'" -/
-theorem keyText_isNum {k : Kw} (hk : KwOK k) (p : Bytes) (pp : Nat) (rest : Bytes)
+theorem keyText_isNum {k : Kw} (hk : KwW k) (p : Bytes) (pp : Nat) (rest : Bytes)
     (h : p.drop pp = keyText k ++ rest) :
     (rd p (pp + (keyText k).length - 1) == 35) = k.numeric := by
   have hpos := keyText_pos hk
@@ -142,7 +140,7 @@ theorem keyText_isNum {k : Kw} (hk : KwOK k) (p : Bytes) (pp : Nat) (rest : Byte
     have := (hk.long_nz _ hmem).2.2
     simpa using this
 
-theorem psp_key {k : Kw} (hk : KwOK k) (p : Bytes) (pp n : Nat) (rest : Bytes)
+theorem psp_key {k : Kw} (hk : KwW k) (p : Bytes) (pp n : Nat) (rest : Bytes)
     (h : p.drop pp = keyText k ++ rest)
     (hlen : n = (keyText k).length ∨ ((keyText k).length < n ∧
       (rest.headD 0 = 58 ∨ rest.headD 0 = 91 ∨ rest.headD 0 = 93))) :
@@ -154,7 +152,7 @@ theorem psp_key {k : Kw} (hk : KwOK k) (p : Bytes) (pp n : Nat) (rest : Bytes)
   · refine Or.inr ⟨h1, ?_, ?_⟩ <;> rcases h2 with h | h | h <;> rw [h] <;> simp
 
 /-- one iteration on `KEY]` with brackets = 1: a skipped numeric keyword gets the default -/
-theorem tl_key {k : Kw} (hk : KwOK k) (p : Bytes) (hn : Bool) (d : Int) (fuel pp : Nat) (pl : Int) (cp cl : Nat)
+theorem tl_key {k : Kw} (hk : KwW k) (p : Bytes) (hn : Bool) (d : Int) (fuel pp : Nat) (pl : Int) (cp cl : Nat)
     (nums : List Int) (idx : Nat) (oob : Bool) (t : Bytes) (h : p.drop pp = keyText k ++ 93 :: t)
     (hpl : ((keyText k).length : Int) < pl) :
     trailingLoop p hn d (fuel + 1) ⟨pp, pl, cp, cl, 1, nums, idx, oob⟩ =
@@ -169,7 +167,7 @@ theorem tl_key {k : Kw} (hk : KwOK k) (p : Bytes) (hn : Bool) (d : Int) (fuel pp
     have := rd_after p pp _ _ h 0; simpa [rd] using this
   cases hk' : k.numeric <;> simp [hk'] at hnum <;> simp [hsp, hnum, hpos, hch, setNum_eq, hk']
 
-theorem keyText_head {k : Kw} (hk : KwOK k) (rest : Bytes) :
+theorem keyText_head {k : Kw} (hk : KwW k) (rest : Bytes) :
     (keyText k ++ rest).headD 0 ≠ 58 ∧ (keyText k ++ rest).headD 0 ≠ 91 ∧
     (keyText k ++ rest).headD 0 ≠ 93 ∧ (keyText k ++ rest).headD 0 ≠ 0 ∧ (keyText k ++ rest).headD 0 ≠ 63 := by
   have hpos := keyText_pos hk
@@ -187,7 +185,7 @@ theorem want_consNum (k : Kw) (n : Option Nat) (sol : List (Option Nat)) (d : In
 
 /-- from the start of the rendering of `ks`, outside brackets, after the `brackets == 0` check -/
 theorem tl_rest (p qt : Bytes) (hn : Bool) (d : Int) :
-    ∀ (ks : List Kw), (∀ k ∈ ks, KwOK k) →
+    ∀ (ks : List Kw), (∀ k ∈ ks, KwW k) →
     ∀ (fuel pp : Nat) (pl : Int) (cp cl : Nat) (nums : List Int) (idx : Nat) (oob : Bool),
       p.drop pp = renderRest ks ++ qt → pl = ((renderRest ks).length : Int) →
       (renderRest ks).length ≤ fuel →
@@ -205,8 +203,8 @@ theorem tl_rest (p qt : Bytes) (hn : Bool) (d : Int) :
     simp [tlX, greedy, want, fill]
   | cons k ks ih =>
     intro hks fuel pp pl cp cl nums idx oob h hpl hfuel
-    have hk : KwOK k := hks k (by simp)
-    have hks' : ∀ k ∈ ks, KwOK k := fun k' hk' => hks k' (by simp [hk'])
+    have hk : KwW k := hks k (by simp)
+    have hks' : ∀ k ∈ ks, KwW k := fun k' hk' => hks k' (by simp [hk'])
     have hpos := keyText_pos hk
     cases hopt : k.optional with
     | false =>
@@ -260,7 +258,7 @@ def closeB (k : Kw) : Bytes := if k.optional then [93] else []
 def brOf (k : Kw) : Int := if k.optional then 1 else 0
 
 /-- the trailing loop entered right after the text of keyword `k` -/
-theorem tl_after (p qt : Bytes) (hn : Bool) (d : Int) (k : Kw) (ks : List Kw) (hks : ∀ k ∈ ks, KwOK k)
+theorem tl_after (p qt : Bytes) (hn : Bool) (d : Int) (k : Kw) (ks : List Kw) (hks : ∀ k ∈ ks, KwW k)
     (fuel pp : Nat) (pl : Int) (cp cl : Nat) (nums : List Int) (idx : Nat) (oob : Bool)
     (h : p.drop pp = closeB k ++ renderRest ks ++ qt)
     (hpl : pl = ((closeB k ++ renderRest ks).length : Int))
@@ -286,7 +284,7 @@ theorem tl_after (p qt : Bytes) (hn : Bool) (d : Int) (k : Kw) (ks : List Kw) (h
       rw [trailingLoop_zero_pl _ _ _ _ _ (by simpa using hpl)]
       simp [greedy, want, fill, hpl]
     | k' :: ks', hks =>
-      have hk' : KwOK k' := hks k' (by simp)
+      have hk' : KwW k' := hks k' (by simp)
       have hpos := keyText_pos hk'
       cases hopt' : k'.optional with
       | true =>
